@@ -185,6 +185,32 @@ fn exec_case(r: &mut Rng, work: &Path, w: &mut dyn Write, spoof: bool) {
     writeln!(w, "O {} {} {} {} {}|{}", if cram { 'c' } else { 'm' }, osn, ob(keep), ob(strip), cs, out).unwrap();
 }
 
+/// CR LF translation "for outputs of any size", through the real executors: one byte, then n CR LF pairs, so that a CR stands at
+/// every odd offset -- wherever a reader cuts the stream at an even offset, a pair is cut in two.  On stdout and on stderr.
+fn big_exec_case(work: &Path, w: &mut dyn Write, cram: bool, n: usize, to_stderr: bool) {
+    let mut cfg = TestCaseConfig::empty();
+    cfg.output_stream = Some(if to_stderr { OutputStreamControl::Stderr } else { OutputStreamControl::Stdout }); cfg.keep_crlf = Some(false);
+    let expr = format!("(printf a; yes $'\\r' | head -n {}){}", n, if to_stderr { " >&2" } else { "" });
+    let t = tc(&expr, cfg);
+    let dir = tempfile::Builder::new().prefix("runbig.").tempdir_in(work).unwrap();
+    let mut doc = DocumentConfig::empty(); doc.total_timeout = Some(Duration::from_secs(60));
+    let ctx = ContextBuilder::default().work_directory(dir.path().to_path_buf()).temp_directory(dir.path().to_path_buf()).file(PathBuf::from("d.md")).config(doc).build().unwrap();
+    let res = std::panic::catch_unwind(std::panic::AssertUnwindSafe(|| {
+        if cram { BashScriptExecutor::new(Path::new("/bin/bash")).execute_all(&[&t], &ctx) }
+        else { StatefulExecutor::new(BashRunner::stateful_generator(Path::new("/bin/bash"))).execute_all(&[&t], &ctx) }
+    }));
+    let r = match res {
+        Err(_) => "panic".to_string(), Ok(Err(_)) => "error".into(),
+        Ok(Ok(outs)) => {
+            let b = if to_stderr { outs[0].stderr.to_bytes() } else { outs[0].stdout.to_bytes() };
+            let crs = b.iter().filter(|c| **c == b'\r').count();
+            if outs.len() == 1 && b.len() == n + 1 && b[0] == b'a' && b[1..].iter().all(|c| *c == b'\n') { "ok".to_string() }
+            else { format!("recorded-{}-bytes-with-{}-CR-instead-of-{}-LF", b.len(), crs, n) }
+        }
+    };
+    writeln!(w, "H {} {} {}|{}", if cram { 'c' } else { 'm' }, if to_stderr { 2 } else { 1 }, n, r).unwrap();
+}
+
 pub fn main(args: &[String], w: &mut dyn Write) {
     let count: u64 = args[0].parse().unwrap();
     let nexec: u64 = args[1].parse().unwrap();
@@ -195,6 +221,7 @@ pub fn main(args: &[String], w: &mut dyn Write) {
     let work = tempfile::Builder::new().prefix("p_run.").tempdir_in(&base).unwrap();
     let mut r = Rng::new(seed.wrapping_add(shard * 86028121));
     if shard == 0 && big > 0 { crlf_big(big, w); crlf_big(big / 7 + 1, w); }
+    if big > 0 && shard < 4 { big_exec_case(work.path(), w, shard % 2 == 1, (big / 3).max(70000).min(2000000), shard >= 2); }
     for i in 0..(count / nsh) { if i % 2 == 0 { template_case(&mut r, work.path(), w); } else { crlf_case(&mut r, w); } }
     for k in 0..((nexec + nsh - 1 - shard) / nsh) { exec_case(&mut r, work.path(), w, shard == 0 && k == 0); }
 }
